@@ -670,6 +670,59 @@ fn operations(thorough: bool) -> Vec<(String, Op)> {
     add("a repeated abstract field, one sub-selection with a variable inside a type condition", vec!["a"], vec![fs("node", vec![f("id"), on("User", vec![with(f("name"), incl(a()))])]), fs("node", vec![on("Post", vec![f("title")]), on("User", vec![fs("friend", vec![f("id")])])])], vec![]);
     add("a repeated list field, one sub-selection with a variable", vec!["a"], vec![fs("users", vec![with(f("id"), skip(a()))]), fs("users", vec![f("name")])], vec![]);
     add("nested fragments", vec![], vec![fs("user", vec![Sel::Spread { name: "A", dirs: Dirs::default() }])], vec![("A", "User", vec![f("id"), Sel::Spread { name: "B", dirs: Dirs::default() }]), ("B", "User", vec![f("name"), fs("friend", vec![Sel::Spread { name: "C", dirs: Dirs::default() }])]), ("C", "User", vec![f("id")])]);
+    // every ordered pair of ten sub-selection forms for one field selected twice (merging of sub-selections whose
+    // branches depend on variables, fragments and aliases)
+    {
+        let sp = |name: &'static str| Sel::Spread { name, dirs: Dirs::default() };
+        let forms: Vec<(&str, Vec<Sel>)> = vec![
+            ("{ id }", vec![f("id")]),
+            ("{ name @skip(a) }", vec![with(f("name"), skip(a()))]),
+            ("{ id name @include(b) }", vec![f("id"), with(f("name"), incl(b()))]),
+            ("{ friend { id } }", vec![fs("friend", vec![f("id")])]),
+            ("{ friend { name @skip(a) } }", vec![fs("friend", vec![with(f("name"), skip(a()))])]),
+            ("{ ...F }", vec![sp("F")]),
+            ("{ ...G @include(a) }", vec![with(sp("G"), incl(a()))]),
+            ("{ ... @skip(b) { name } }", vec![with(Sel::Inline { cond: None, dirs: Dirs::default(), sel: vec![f("name")] }, skip(b()))]),
+            ("{ nm: name }", vec![alias("nm", f("name"))]),
+            ("{ nm: name @skip(a) __typename }", vec![with(alias("nm", f("name")), skip(a())), f("__typename")]),
+        ];
+        let mut k = 0;
+        for (la, fa) in &forms {
+            for (lb, fb) in &forms {
+                k += 1;
+                if !thorough && k % 5 != 0 {
+                    continue;
+                }
+                add(&format!("one field twice: user {la} user {lb}"), vec!["a", "b"], vec![fs("user", fa.clone()), fs("user", fb.clone())], vec![("F", "User", vec![f("id"), f("name")]), ("G", "User", vec![fs("posts", vec![f("title")])])]);
+            }
+        }
+    }
+    // the same for a field of interface type and for a list of a union: every ordered pair of six forms
+    {
+        let sp = |name: &'static str| Sel::Spread { name, dirs: Dirs::default() };
+        let forms: Vec<(&str, Vec<Sel>)> = vec![
+            ("{ id }", vec![f("id")]),
+            ("{ ... on User { name @skip(a) } }", vec![on("User", vec![with(f("name"), skip(a()))])]),
+            ("{ ... on Post { title } }", vec![on("Post", vec![f("title")])]),
+            ("{ ...N }", vec![sp("N")]),
+            ("{ __typename @include(b) }", vec![with(f("__typename"), incl(b()))]),
+            ("{ ... on User { id } ... on Post { id title @include(a) } }", vec![on("User", vec![f("id")]), on("Post", vec![f("id"), with(f("title"), incl(a()))])]),
+        ];
+        let mut k = 0;
+        for (la, fa) in &forms {
+            for (lb, fb) in &forms {
+                k += 1;
+                if !thorough && k % 4 != 0 {
+                    continue;
+                }
+                let frags = vec![("N", "Node", vec![f("id"), on("User", vec![fs("friend", vec![f("id")])])])];
+                add(&format!("one interface field twice: node {la} node {lb}"), vec!["a", "b"], vec![fs("node", fa.clone()), fs("node", fb.clone())], frags.clone());
+                if la != &"{ id }" && lb != &"{ id }" && la != &"{ ...N }" && lb != &"{ ...N }" {
+                    add(&format!("one union list field twice: things {la} things {lb}"), vec!["a", "b"], vec![fs("things", fa.clone()), fs("things", fb.clone())], vec![]);
+                }
+            }
+        }
+    }
     if thorough {
         // every pair of directive placements on two sibling leaves
         let ds: Vec<(&str, Dirs)> = vec![("-", Dirs::default()), ("skip a", skip(a())), ("include a", incl(a())), ("skip b", skip(b())), ("include b", incl(b())), ("skip a include b", both(a(), b())), ("skip true", skip(Cond::Lit(true))), ("include false", incl(Cond::Lit(false)))];
